@@ -75,6 +75,7 @@ package bpv7
 // status report; a zero creation time only with a bundle age block; lifetime not exceeded.
 // govc:func (Bundle).CheckValid property C02 C04
 //@ requires blocksNonNil(b)
+//@ assigns nothing
 //@ ensures errs == nil ==> len(b.CanonicalBlocks) >= 1
 //@ ensures errs == nil ==> pbOK(b.PrimaryBlock)
 //@ ensures errs == nil ==> forall j int :: 0 <= j && j < len(b.CanonicalBlocks) ==> cbOK(b.CanonicalBlocks[j])
@@ -120,6 +121,7 @@ package bpv7
 //@ ensures b.CanonicalBlocks[at].Value == block.Value
 //@ ensures forall j int :: 0 <= j && j < len(b.CanonicalBlocks) && j != at ==> 0 <= uf("addedPerm", int, b, ref(block.Value), j) && uf("addedPerm", int, b, ref(block.Value), j) < old(len(b.CanonicalBlocks)) && b.CanonicalBlocks[j].Value == old(b.CanonicalBlocks[uf("addedPerm", int, b, ref(block.Value), j)].Value)
 //@ ensures old(blocksNonNil(*b)) && block.Value != nil ==> blocksNonNil(*b)
+//@ ensures ref(b.CanonicalBlocks) == old(ref(b.CanonicalBlocks)) || freshref(b.CanonicalBlocks)
 
 // The copies announced by a bundle: the value of its binary spray block (a valid bundle has at most one block per
 // type, C02).
